@@ -218,6 +218,11 @@ type explorer struct {
 // carry the standard library.
 const stdlibDepth = 4
 
+// progDepth: transitions whose operation is flagged prog (the shadowed
+// qualified references) are also executed in program mode when the history,
+// operation included, is at most this long.
+const progDepth = 4
+
 func (e *explorer) kaseOf(mode string, hist []uint8, op int) kase {
 	n := len(hist)
 	if op >= 0 {
@@ -385,6 +390,7 @@ func run(r *core.Run) {
 	r.Bound("forms_mode_runtime", fmt.Sprintf("standard library loaded for histories of length <= %d, core runtime (lisp + user) beyond; program-mode loads: standard library + production reader", stdlibDepth))
 	r.Bound("alphabet_size", len(ops))
 	r.Bound("full_alphabet_up_to_depth", fullDepth)
+	r.Bound("program_mode_per_transition_up_to_depth", progDepth)
 	var coreNames []string
 	for _, o := range ops {
 		if o.core {
@@ -403,7 +409,7 @@ func run(r *core.Run) {
 		"a function body ran in a package other than the caller's, a lexical binding shadowed a package binding, an unqualified name failed although another package binds it, " +
 		"a qualified reference crossed packages or reached an unexported binding, a copied binding differs from its source (snapshot), a load restored the package, " +
 		"use-package copied a binding, a macro expansion resolved at the call site, or a definition landed outside the top-level current package")
-	r.Assume("operations are evaluated one top-level form at a time with LEnv.Eval in the root environment (what the REPL does), so that in-package persists between operations; LEnv.LoadString restores the package and is checked separately (program mode with the production reader and the standard library: one load per expanded state, and one load per transition for every shadowed-qualified-reference operation at the full-alphabet levels)")
+	r.Assume("operations are evaluated one top-level form at a time with LEnv.Eval in the root environment (what the REPL does), so that in-package persists between operations; LEnv.LoadString restores the package and is checked separately (program mode with the production reader and the standard library: one load per expanded state, and one load per transition for every shadowed-qualified-reference operation while the history is at most 4 operations long)")
 	r.Assume("a qualified target (set 'p:a v) binds a in package p: docs/lang.md calls a qualified symbol 'another way to spell a name'")
 	r.Assume("set! only mutates an existing lexical or current-package binding and signals an error otherwise (docstring of set, error text of set!); the VALUE of set!, defun, defmacro is not specified and only its error/value class is compared")
 	r.Assume("errors are compared by condition name only; a reference through an unknown package, use-package of an unknown package and a qualified set into an unknown package are errors that create nothing")
@@ -437,7 +443,7 @@ func run(r *core.Run) {
 			if j == 0 {
 				e.program(frontier[i].hist)
 			}
-			e.transition(frontier[i].hist, sub[j], idx, full)
+			e.transition(frontier[i].hist, sub[j], idx, d <= progDepth)
 			atomic.AddInt64(&done, 1)
 		})
 		if done < n {
